@@ -1101,6 +1101,7 @@ def inline_helpers(trees: Dict[str, ast.Module], anchors: Optional[Set[str]] = N
         _fold_constants(t_)  # getattr(x, "name") / tuple sums that the unrolling has made constant
     notes += dissolve_parameter_objects(trees)
     notes += fuse_wrappers(trees)
+    notes += normalise_varargs(trees)
     notes += normalise_call_arguments(trees)
     notes += expand_forwarders(trees)
     notes += expand_context_managers(trees)
@@ -1905,6 +1906,68 @@ def A_dotted(e: ast.AST) -> Optional[str]:
         b = A_dotted(e.value)
         return f"{b}.{e.attr}" if b else None
     return None
+
+
+def normalise_varargs(trees: Dict[str, ast.Module]) -> List[str]:
+    """`def f(a, *rest)` of the package (a unique name, no **kwargs) whose every call passes plain positional
+    arguments: read as `def f(a, rest)` with each call packing its trailing arguments into a tuple display -
+    inside the function `rest` is that tuple either way.  Whether a sequence parameter is spelt as varargs is not
+    something a rule should see."""
+    defs: Dict[str, List[Tuple[ast.FunctionDef, bool]]] = {}
+    for t in trees.values():
+        for n in ast.walk(t):
+            if isinstance(n, ast.ClassDef):
+                for s_ in n.body:
+                    if isinstance(s_, ast.FunctionDef):
+                        static = any(isinstance(d, ast.Name) and d.id == "staticmethod" for d in s_.decorator_list)
+                        defs.setdefault(s_.name, []).append((s_, not static))
+        for s_ in t.body:
+            if isinstance(s_, ast.FunctionDef):
+                defs.setdefault(s_.name, []).append((s_, False))
+    notes: List[str] = []
+    for name, ds in sorted(defs.items()):
+        if len(ds) != 1 or name.startswith("__"):
+            continue
+        fn, is_m = ds[0]
+        a = fn.args
+        if a.vararg is not None:
+            # a definition that stands as it was audited keeps its spelling (the rules know it)
+            try:
+                from .baseline_defs import DIGESTS as _DG
+            except Exception:
+                _DG = {}
+            if def_digest(fn) in _DG.get(name, []):
+                continue
+        if a.vararg is None or a.kwarg is not None or a.kwonlyargs or a.defaults or fn.decorator_list and not all(isinstance(d, ast.Name) and d.id == "staticmethod" for d in fn.decorator_list):
+            continue
+        n_fixed = len(a.args) - (1 if is_m else 0)
+        calls = []
+        good = True
+        for t in trees.values():
+            for c in ast.walk(t):
+                if isinstance(c, ast.Call):
+                    nm = c.func.id if isinstance(c.func, ast.Name) else (c.func.attr if isinstance(c.func, ast.Attribute) else None)
+                    if nm == name:
+                        if c.keywords or any(isinstance(x, ast.Starred) for x in c.args) or len(c.args) < n_fixed or (is_m and not isinstance(c.func, ast.Attribute)):
+                            good = False
+                        calls.append(c)
+                elif isinstance(c, (ast.Name, ast.Attribute)) and (c.id if isinstance(c, ast.Name) else c.attr) == name and not isinstance(getattr(c, "ctx", None), ast.Store):
+                    pass
+        # a reference that is not a call (the function passed around) keeps the signature
+        n_refs = sum(1 for t in trees.values() for x in ast.walk(t) if (isinstance(x, ast.Name) and x.id == name) or (isinstance(x, ast.Attribute) and x.attr == name))
+        if not good or not calls or n_refs != len(calls):
+            continue
+        for c in calls:
+            rest = c.args[n_fixed:]
+            tup = ast.Tuple(elts=list(rest), ctx=ast.Load())
+            ast.copy_location(tup, rest[0] if rest else c)
+            c.args = c.args[:n_fixed] + [tup]
+            ast.fix_missing_locations(c)
+        a.args.append(ast.arg(arg=a.vararg.arg, annotation=None))
+        a.vararg = None
+        ast.fix_missing_locations(fn)
+        notes.append(f"{name}(*{a.args[-1].arg}) read with a sequence parameter at {len(calls)} call site(s)")
+    return notes
 
 
 def normalise_call_arguments(trees: Dict[str, ast.Module]) -> List[str]:
